@@ -8,7 +8,9 @@ package did
 //           PubKey returns a key or an error (never panics), and an extracted key's canonical DID is this DID (one key, one DID)
 
 import (
+	"crypto/ecdsa"
 	"crypto/elliptic"
+	"crypto/rand"
 	"encoding/hex"
 	"encoding/json"
 	"fmt"
@@ -84,6 +86,35 @@ func TestVerifReplay(t *testing.T) {
 					return
 				}
 				fmt.Printf("REPLAY-AGREES %s\n", js)
+			case "coerce":
+				// an ECDSA-typed key on the secp256k1 curve whose X or Y coordinate has a leading zero byte
+				for i := 0; i < 20000; i++ {
+					sk, err := ecdsa.GenerateKey(secp256k1.S256(), rand.Reader)
+					if err != nil {
+						fmt.Printf("REPLAY-SKIP %v\n", err)
+						return
+					}
+					if sk.X.BitLen() > 248 && sk.Y.BitLen() > 248 {
+						continue
+					}
+					_, pub, err := crypto.ECDSAKeyPairFromKey(sk)
+					if err != nil {
+						fmt.Printf("REPLAY-SKIP %v\n", err)
+						return
+					}
+					d, err := FromPubKey(pub)
+					if err != nil {
+						fmt.Printf("REPLAY-CONFIRMED direction=any FromPubKey fails for a valid ECDSA key on secp256k1 whose coordinates have %d and %d bits: %v; witness=%s\n", sk.X.BitLen(), sk.Y.BitLen(), err, js)
+						return
+					}
+					if back, perr := Parse(d.String()); perr != nil || back != d {
+						fmt.Printf("REPLAY-CONFIRMED direction=any coerced secp256k1 DID does not parse back; witness=%s\n", js)
+						return
+					}
+					fmt.Printf("REPLAY-AGREES coerced key with a short coordinate %s\n", js)
+					return
+				}
+				fmt.Printf("REPLAY-SKIP no key with a short coordinate found %s\n", js)
 			case "extract":
 				mat, _ := hex.DecodeString(tc.Hex)
 				if tc.Hex == "uncompressed-secp256k1" {
